@@ -1083,7 +1083,9 @@ def binding_pass(run, wd, scen, tag, selftest=True, limit=None, client=True):
     scen = [s for s in scen if s["sc"] not in ("c06.cancel", "c16.reverse", "c13.panic", "c14.writers", "c17.keepalive", "c04.httpkill", "c18.otherclosers")
             and (s["sc"] != "c15.end" or not client)
             and s["args"].get("transport", "ws") == "ws" and (not s["args"].get("reverse") or s["sc"] == "c15.end") and not s["args"].get("quietwire")
-            and "reverse" not in (s["args"].get("mix") or []) and not s["args"].get("gatereader")]
+            and "reverse" not in (s["args"].get("mix") or []) and not s["args"].get("gatereader")
+            # not modelled at hook level: keepalive traffic of the silent-stall styles, the float stream next to the streams under test
+            and s["args"].get("style") not in ("stall", "stallmid", "halfopen") and not s["args"].get("nan") and not s["args"].get("keepalive")]
     if limit:
         scen = scen[:limit]
     if not scen:
